@@ -120,6 +120,9 @@ def ret_code(ret, vt):
         return "yaclib::SharedFuture<pg::Tracked, pg::MyError>", "return pg::ReadyST(%d, %d);" % (ret["st"], ret["code"])
     if k == "shared_pending":
         return "yaclib::SharedFuture<pg::Tracked, pg::MyError>", "return pg::PendingST(%d, %d);" % (ret["st"], ret["code"])
+    if k == "shared_slot":
+        return ("yaclib::SharedFuture<pg::Tracked, pg::MyError>",
+                "return pg::SharedSlot(%d, %d, %d, %d);" % (ret["slot"], ret["pending"], ret["st"], ret["code"]))
     task = "yaclib::Task<%s, pg::MyError>" % T
     lazy_step = ""
     if ret.get("hid") is not None:
@@ -244,7 +247,7 @@ def emit(p):
         elif p.start == "get":
             # Get blocks; everything must be able to run inline or on immediate executors (the generator guarantees it)
             L.append("  { auto r = std::move(%s).Get(); pg::Dig d = pg::D(r); pg::gout.final_state = d.state; pg::gout.final_code = d.code; "
-                     "pg::gout.ready = 1; pg::Quiesce(); pg::gout.allocs = pg::gc.news - pg::alloc_mark; pg::gout.finished = 1; }" % var)
+                     "pg::gout.ready = 1; pg::Quiesce(); pg::gout.allocs = pg::gc.news - pg::alloc_mark; pg::CheckSharedSlots(); pg::gout.finished = 1; }" % var)
         elif p.start == "detach":
             L.append("  std::move(%s).Detach();" % var)
             L.append("  pg::FinishDetached();")
@@ -259,7 +262,7 @@ def emit(p):
             L.append("  pg::FinishDetached();")
         elif var == "s0":
             L.append("  pg::Quiesce(); { const pg::RT& r = std::as_const(s0).Get(); pg::Dig d = pg::D(r); pg::gout.final_state = d.state; "
-                     "pg::gout.final_code = d.code; pg::gout.ready = 1; pg::gout.allocs = pg::gc.news - pg::alloc_mark; pg::gout.finished = 1; }")
+                     "pg::gout.final_code = d.code; pg::gout.ready = 1; pg::gout.allocs = pg::gc.news - pg::alloc_mark; pg::CheckSharedSlots(); pg::gout.finished = 1; }")
         else:
             L.append("  pg::FinishFuture(std::move(%s));" % var)
     L.append("}")
@@ -368,6 +371,7 @@ def interpret(p, mode="base", k=-1):
             if not submit(start_exec):
                 state = STOP
     cur_vt = vt
+    slots_made = set()
     for st in p.steps:
         ex.steps += 1
         tag = None
@@ -412,6 +416,11 @@ def interpret(p, mode="base", k=-1):
         elif kk in ("fut_ready", "fut_pending", "shared_ready", "shared_pending"):
             ex.steps += 1
             state = (r["st"], r["code"] if (r["st"] != ST_VAL or ovt == "T") else 0)
+        elif kk == "shared_slot":
+            if r["slot"] not in slots_made:
+                slots_made.add(r["slot"])
+                ex.steps += 1
+            state = (r["st"], r["code"])
         elif kk == "fut_run":
             ex.steps += 1
             if submit(r["etag"]):
@@ -481,6 +490,8 @@ def check_run(p, rec):
                         "final Result state=%d code=%d, expected state=%d code=%d" % (rec["final"][0], rec["final"][1], ex.final[0], ex.final[1])))
     if rec["submits"] != ex.submits:
         out.append(("submission-count", "C05", "%d Submit calls on instrumented executors, expected %d" % (rec["submits"], ex.submits)))
+    if rec.get("shared_bad"):
+        out.append(("shared-state-intact", "C02,C06", "%d SharedFuture(s) returned by steps no longer hold the Result that was set (moved-from or changed)" % rec["shared_bad"]))
     if rec["live"] != 0 or rec["bad"] != 0:
         out.append(("tracked-leak", "C03", "tracked objects alive at quiescence: %d, canary failures: %d" % (rec["live"], rec["bad"])))
     if rec["balance"] != 0:
@@ -499,7 +510,10 @@ SIGS_SHARED = ["Rc", "Rv", "V", "Vc", "E", "X"]
 ATTACH = ["inline", "exec", "exec", "inherit", "stopped"]
 
 
-def gen_ret(rng, sid, ovt, coro, allow_async=True, deferred_ok=True):
+SLOT_PARAMS = {}
+
+
+def gen_ret(rng, sid, ovt, coro, allow_async=True, deferred_ok=True, slots=None):
     kinds = ["val" if ovt == "T" else "void", "res", "res", "throw"]
     if allow_async:
         kinds += ["fut_ready", "task_make", "task_sched"]
@@ -509,14 +523,23 @@ def gen_ret(rng, sid, ovt, coro, allow_async=True, deferred_ok=True):
             kinds += ["task_lazycontract"]
         if ovt == "T":
             kinds += ["shared_ready"] + (["shared_pending"] if deferred_ok else [])
+            if slots is not None:
+                kinds += ["shared_slot", "shared_slot"]
         if coro:
             kinds += ["task_coro"]
     k = rng.choice(kinds)
     r = {"kind": k, "code": 1000 * sid + rng.randrange(1, 99)}
     if k in ("res", "fut_ready", "fut_pending", "shared_ready", "shared_pending", "task_lazycontract", "task_coro"):
         r["st"] = rng.choice([ST_VAL, ST_VAL, ST_ERR, ST_EXC])
+    if k == "shared_slot":
+        i = rng.randrange(2)
+        sp = slots[i]
+        if not deferred_ok:
+            sp = dict(sp, pending=0)
+            slots[i] = sp
+        r.update({"slot": i, "pending": sp["pending"], "st": sp["st"], "code": sp["code"]})
     if k in ("fut_run", "task_sched_e"):
-        r["etag"] = rng.choice([1, 2, 3])
+        r["etag"] = rng.choice([1, 2, 3, 4]) if deferred_ok else 3
     if k in ("fut_run", "task_sched_e", "task_sched", "task_lazycontract", "task_coro"):
         r["iid"] = 100 + sid * 10
     if k.startswith("task_") and ovt == "T" and rng.random() < 0.4:
@@ -525,7 +548,7 @@ def gen_ret(rng, sid, ovt, coro, allow_async=True, deferred_ok=True):
     return r
 
 
-def gen_step(rng, sid, in_vt, from_shared, inherited_known, coro, immediate_only=False, force=None):
+def gen_step(rng, sid, in_vt, from_shared, inherited_known, coro, immediate_only=False, force=None, slots=None):
     sigs = SIGS_SHARED if from_shared else (SIGS_T if in_vt == "T" else SIGS_V)
     sig = rng.choice(sigs)
     attach = rng.choice(ATTACH)
@@ -547,7 +570,7 @@ def gen_step(rng, sid, in_vt, from_shared, inherited_known, coro, immediate_only
         out_vt = force.get("out_vt", out_vt)
         if sig in ("E", "X"):
             out_vt = in_vt
-    ret = force["ret"] if force and "ret" in force else gen_ret(rng, sid, out_vt, coro, deferred_ok=not immediate_only)
+    ret = force["ret"] if force and "ret" in force else gen_ret(rng, sid, out_vt, coro, deferred_ok=not immediate_only, slots=slots)
     return Step(sid, attach, etag, sig, ret, in_vt, out_vt)
 
 
@@ -602,9 +625,11 @@ def gen_prog(rng, pid, lazy, coro, length):
         p.source["etag"] = 3
     cur_vt = p.source["vt"]
     from_shared = p.source["kind"] == "shared"
+    slots = [{"pending": rng.randrange(2), "st": rng.choice([ST_VAL, ST_VAL, ST_EXC, ST_ERR]), "code": 9100 + rng.randrange(1, 99)},
+             {"pending": rng.randrange(2), "st": rng.choice([ST_VAL, ST_VAL, ST_EXC, ST_ERR]), "code": 9200 + rng.randrange(1, 99)}]
     for i in range(length):
         inh = inherited_after(p.source, p.steps, lazy, p.start)
-        st = gen_step(rng, i + 1, cur_vt, from_shared and i == 0, inh is not None, coro, immediate_only)
+        st = gen_step(rng, i + 1, cur_vt, from_shared and i == 0, inh is not None, coro, immediate_only, slots=slots)
         last = i == length - 1
         if (not lazy) and p.tail == "detach" and last:
             # Detach* callbacks return void
@@ -648,7 +673,7 @@ def generate(seed, n_random, coro, max_len=4, exhaustive_l1=True):
             for sk in kinds_src:
                 for attach in ("inline", "exec", "inherit", "stopped"):
                     for sig in SIGS_T:
-                        for rk in ["val", "void", "res", "throw", "fut_ready", "fut_pending", "fut_run", "shared_ready", "shared_pending",
+                        for rk in ["val", "void", "res", "throw", "fut_ready", "fut_pending", "fut_run", "shared_ready", "shared_pending", "shared_slot",
                                    "task_make", "task_sched_e", "task_sched", "task_lazycontract"] + (["task_coro"] if coro else []):
                             for in_state in (ST_VAL, ST_ERR, ST_EXC):
                                 p = Prog(pid)
@@ -670,10 +695,13 @@ def generate(seed, n_random, coro, max_len=4, exhaustive_l1=True):
                                 if sig in ("E", "X") and out_vt != "T":
                                     continue
                                 ret = {"kind": rk, "code": 1042}
-                                if rk in ("res", "fut_ready", "fut_pending", "shared_ready", "shared_pending", "task_lazycontract", "task_coro"):
+                                if rk in ("res", "fut_ready", "fut_pending", "shared_ready", "shared_pending", "shared_slot", "task_lazycontract", "task_coro"):
                                     ret["st"] = [ST_VAL, ST_ERR, ST_EXC][pid % 3]
+                                if rk == "shared_slot":
+                                    ret["slot"] = 0
+                                    ret["pending"] = (pid // 3) % 2
                                 if rk in ("fut_run", "task_sched_e"):
-                                    ret["etag"] = 2
+                                    ret["etag"] = [2, 3, 4][(pid // 5) % 3]
                                 if rk in ("fut_run", "task_sched_e", "task_sched", "task_lazycontract", "task_coro"):
                                     ret["iid"] = 110
                                 if rk.startswith("task_") and pid % 2 == 1:
